@@ -747,8 +747,8 @@ where
                     self.emptybuffer = true;
                     // but first we prune unneeded items:
                     if self.end < 0 && self.begin < 0 {
-                        //discard items from the begin which we do not want
-                        for _ in 0..self.begin.abs() {
+                        //discard items from the begin which we do not want: only the last |begin| items count
+                        while self.buffer.len() > self.begin.unsigned_abs() {
                             self.buffer.pop_front();
                         }
                     }
